@@ -217,3 +217,26 @@ Definition run_c14_addfactors (s : sx) : sx :=
       end
   | _ => bad_request
   end.
+
+(* [nodes edges cliques] -> does the listing consist of exactly the maximal cliques? (verified checker) *)
+Definition run_c14_mcchk (s : sx) : sx :=
+  match s with
+  | SL [sn; se; sc] =>
+      match dec_ugraph sn se, sx_list (sx_list sx_nat) sc with
+      | Some g, Some cs => sx_ok (of_bool (max_cliques_chk g cs))
+      | _, _ => bad_request
+      end
+  | _ => bad_request
+  end.
+
+(* [cliques tree-edges] -> [weight wstar]: weight = sum of sepset sizes, wstar = the bound only junction trees reach *)
+Definition run_c14_jtweight (s : sx) : sx :=
+  match s with
+  | SL [sc; se] =>
+      match sx_list (sx_list sx_nat) sc, dec_edges se with
+      | Some cs, Some es =>
+          let t := {| jcliques := cs; jedges := es |} in sx_ok (SL [of_nat (weight t); of_nat (wstar t)])
+      | _, _ => bad_request
+      end
+  | _ => bad_request
+  end.
